@@ -184,7 +184,9 @@ pub struct C16Case {
 }
 
 fn c16_strategy(_ctx: &Ctx) -> BoxedStrategy<C16Case> {
-  let kinds = prop::sample::select(vec!["interval", "interval_unsub", "timer", "delay", "timeout", "sample", "debounce", "time_interval"]);
+  let kinds = prop::sample::select(vec![
+    "interval", "interval_unsub", "timer", "delay", "timeout", "timeout_slow", "sample", "debounce", "time_interval",
+  ]);
   (
     kinds,
     prop::sample::select(vec![10u64, 25]),
@@ -238,6 +240,16 @@ fn c16_build(c: &C16Case) -> Case {
       }
       actions.push(Action::Advance(c.d * 3));
       Node::Un(Op::Timeout(c.d), Box::new(hot))
+    }
+    "timeout_slow" => {
+      // a subscriber that takes (virtual) time for every item: delay(5) downstream
+      emit_script(&mut actions);
+      if c.ending == 0 {
+        actions.push(Action::Advance(c.gaps[0]));
+        actions.push(Action::Emit(0, Ev::C));
+      }
+      actions.push(Action::Advance(c.d * 3));
+      Node::Un(Op::Delay(5), Box::new(Node::Un(Op::Timeout(c.d), Box::new(hot))))
     }
     "sample" => {
       emit_script(&mut actions);
@@ -369,6 +381,64 @@ fn c16_check(_ctx: &Ctx, c: &C16Case) -> Report {
         rep.fail = fail(format!("timeout({}): got <{}>, expected <{}>", d, show(&got), show(&exp)));
       }
     }
+    "timeout_slow" => {
+      // hot.timeout(d).delay(5): the emitter is blocked 5 ms per item; the period restarts
+      // when the item has been handed on
+      let e = 5u64;
+      let mut exp: Vec<(Rk, u64)> = Vec::new();
+      let mut now = 0u64; // emitter's clock
+      let mut armed: Option<u64> = None; // expiry of the running period
+      let mut done = false;
+      let mut script: Vec<(u64, Option<i64>)> = c.gaps.iter().enumerate().map(|(i, g)| (*g, Some(i as i64))).collect();
+      if c.ending == 0 {
+        script.push((c.gaps[0], None));
+      }
+      for (gap, item) in script {
+        let arrival = now + gap;
+        if let Some(exp_at) = armed {
+          if arrival > exp_at {
+            exp.push((Rk::E(CODE_TIMEOUT), exp_at));
+            done = true;
+            break;
+          }
+        }
+        match item {
+          Some(i) => {
+            exp.push((Rk::N(P::I(i)), arrival + e));
+            now = arrival + e;
+            armed = Some(now + d);
+          }
+          None => {
+            exp.push((Rk::C, arrival));
+            done = true;
+            break;
+          }
+        }
+      }
+      if !done {
+        if let Some(exp_at) = armed {
+          exp.push((Rk::E(CODE_TIMEOUT), exp_at));
+        }
+      }
+      // an arrival exactly at an expiry instant is ambiguous: skip
+      let mut t2 = 0u64;
+      let mut ambiguous = false;
+      let mut arm2: Option<u64> = None;
+      for g in &c.gaps {
+        let a = t2 + g;
+        if arm2 == Some(a) {
+          ambiguous = true;
+        }
+        t2 = a + e;
+        arm2 = Some(t2 + d);
+      }
+      if c.ending == 0 && arm2 == Some(t2 + c.gaps[0]) {
+        ambiguous = true;
+      }
+      if !ambiguous && got != exp {
+        rep.fail = fail(format!("timeout({}).delay(5): got <{}>, expected <{}>", d, show(&got), show(&exp)));
+      }
+    }
     "sample" | "debounce" => {
       // only items the source emitted, in source order, none twice
       let idx: Vec<i64> = got.iter().filter_map(|(k, _)| if let Rk::N(p) = k { Some(p.as_i64()) } else { None }).collect();
@@ -424,13 +494,46 @@ fn c16_check(_ctx: &Ctx, c: &C16Case) -> Report {
   rep
 }
 
+/// concurrent variant: the subscription is ended from another thread (or by the terminal)
+/// while the scheduler's worker is busy or just going idle
+fn c15_conc_check(_ctx: &Ctx, c: &super::conc::C09Case) -> Report {
+  let r = super::conc::run_cc(&c.cc, 5_000);
+  let mut rep = Report::ok();
+  rep.classes = op_classes(&c.cc.case);
+  rep.sample = Some(super::conc::render_cc(&c.cc, &r));
+  use arx_rt::Kind::*;
+  match r.outcome.kind {
+    Done | Quiescent => {}
+    ref k => {
+      rep.classes.push(format!("aborted:{:?}", k));
+      return rep;
+    }
+  }
+  if !r.log.epilogue_done {
+    return rep;
+  }
+  rep.nontrivial = r.outcome.switches >= 4 && r.outcome.threads.iter().any(|t| t.lib);
+  if let Some(t) = r.outcome.threads.iter().find(|t| t.lib && !t.finished) {
+    rep.fail = Some(format!(
+      "library thread {} is still alive ({}) after every subscription ended | {}",
+      t.name,
+      t.wait,
+      super::conc::render_cc(&c.cc, &r)
+    ));
+  }
+  rep
+}
+
 pub fn properties() -> Vec<Property> {
   vec![
     Property {
       id: "C15",
       rule: "cases = generated pipelines over interval / timer sources and observe_on / subscribe_on / delay / debounce / timeout (new-thread schedulers, periods 5..25 ms virtual) with merge / amb / take_until, optional take / first / retry downstream, ended by complete / error / unsubscribe at generated virtual instants, 1..2 subscribers, generated schedule; oracle = every library-spawned thread has finished at quiescence, no later than the sum of the pipeline's timer periods after the last subscription ended; non-trivial = at least one library thread was created",
       assumptions: vec!["virtual clock: computation takes no time", "bound = sum of the periods in the pipeline (a thread may be inside one sleep of each nested timed operator)"],
-      subs: vec![mk_sub("threads", (1000, 20_000), c15_strategy, c15_check)],
+      subs: vec![
+        mk_sub("threads", (1000, 20_000), c15_strategy, c15_check),
+        mk_sub("conc", (1500, 30_000), |ctx| super::conc::c09_strategy(ctx, true), c15_conc_check),
+      ],
     },
     Property {
       id: "C16",
